@@ -52,6 +52,12 @@ def h_cert(eng, case):
     env.set_clock(lambda: eng.int('clock', 0, 2 ** 64 - 1))
     kind = case['signer']
     signer = env.make_signer(eng, kind, rmin=max(32, case.get('rmin', 0)))   # < 32 bytes never verifies in the ideal model
+    if case.get('other_signer'):
+        # another signer object of the same class, for another key and key locator, is created afterwards (a CA and a
+        # subject live in one process): the issuing signer keeps its own configuration
+        saved_len = crypto.SIG_LEN
+        env.make_signer(eng, kind, key_ident='o', key_name='/other/KEY/9')
+        crypto.SIG_LEN = saved_len
     ncomp = case['name_comps']
     key_name = [bwrap([8, 1] + blist(eng.bytes('kn%d' % i, 1))) for i in range(ncomp)]
     if case.get('key_shape'):
@@ -191,6 +197,7 @@ def cases(tier, seed):
                        {'weight': 20}))
     for kind in ('ecdsa', 'rsa', 'ed25519', 'hmac'):
         cs.append(('cert', dict(base, signer=kind, mode='new', reuse=True, rmin=66), {'weight': 10}))
+        cs.append(('cert', dict(base, signer=kind, mode='derive_text', other_signer=True, rmin=66), {'weight': 10}))
     # every EC key size as issuer (the signature type stays SignatureSha256WithEcdsa)
     for kind, rmin in (('ecdsa224', 60), ('ecdsa384', 100), ('ecdsa521', 136)):
         for mode in ('new', 'derive_text', 'self', 'sign_req'):
